@@ -896,26 +896,29 @@ func ruleTLSConfig(c *Ctx, rid string) {
 	}
 	// tls.Server wrapping in the TLS connection root
 	wrapped := 0
-	for _, al := range c.P.acceptLoops() {
-		for _, b := range al.Loop.sortedBlocks() {
-			for _, ins := range b.Instrs {
-				g, ok := ins.(*ssa.Go)
-				if !ok {
+	seenRoot := map[*ssa.Function]bool{}
+	for _, gs := range c.P.goSites(pkgRedis) {
+		{
+			{
+				// the goroutine root serving the TLS listener: it receives the socket and the TLS
+				// configuration (possibly through a forwarding closure, which goSites looks through)
+				t := gs.Target
+				if t == nil || seenRoot[t] {
 					continue
 				}
-				t := staticCallee(g.Common())
-				if t == nil {
-					continue
-				}
-				hasCfg := false
-				for _, a := range g.Common().Args {
-					if strings.Contains(a.Type().String(), "tls.Config") {
+				hasCfg, hasSock := false, false
+				for _, p := range t.Params {
+					if strings.Contains(p.Type().String(), "tls.Config") {
 						hasCfg = true
 					}
+					if p.Type().String() == "net.Conn" {
+						hasSock = true
+					}
 				}
-				if !hasCfg {
+				if !hasCfg || !hasSock {
 					continue
 				}
+				seenRoot[t] = true
 				// in t: first use of the socket parameter is tls.Server(conn, cfg)
 				var sock, cfgp *ssa.Parameter
 				for _, p := range t.Params {
@@ -1345,6 +1348,10 @@ func nilMeansAuthenticated(h *ssa.Function) bool {
 		}
 		any = true
 		okTrue, errNil := false, false
+		// returning Authenticate's own error: the result is nil exactly when that error is
+		if ex, isEx := strip(v).(*ssa.Extract); isEx && ex.Tuple == ssa.Value(auth) && ex.Index == 1 {
+			errNil = true
+		}
 		for _, at := range closeFacts(factsAt(r.Block())) {
 			ex, isEx := at.X.(*ssa.Extract)
 			if !isEx || ex.Tuple != ssa.Value(auth) {
